@@ -268,6 +268,39 @@ def check_case(case) -> Result:
             return float(forward(p))
 
     unusable = set()
+    jacs, smp_values = {}, None
+
+    def at_flat_samples(name):
+        """the parameter moves a sample that is exactly equal to a neighbouring sample of the same signal (a tie of the
+        piecewise PCHIP slope rule: zero secant)"""
+        if smp_values is None or name not in jacs:
+            return False
+        L = smp_values.numel() // 2
+        for k_ in range(smp_values.numel()):
+            if jacs[name][k_] == 0:
+                continue
+            lo_, hi_ = (0, L) if k_ < L else (L, 2 * L)
+            if (k_ + 1 < hi_ and smp_values[k_ + 1] == smp_values[k_]) or (k_ - 1 >= lo_ and smp_values[k_ - 1] == smp_values[k_]):
+                return True
+        return False
+
+    def agrees_off_the_tie(name, idx):
+        """autograd and central finite differences at the same parameters moved off the tie by 1e-2"""
+        p = {k: v.clone() for k, v in params.items()}
+        p[name].reshape(-1)[idx] += 1e-2
+        lv_ = {k: v.clone().requires_grad_(True) for k, v in p.items()}
+        g_ = torch.autograd.grad(forward(lv_), lv_[name], allow_unused=True)[0]
+        if g_ is None:
+            return False
+
+        def f_(dl):
+            q = {k: v.clone() for k, v in p.items()}
+            q[name].reshape(-1)[idx] += dl
+            with torch.no_grad():
+                return float(forward(q))
+        fd_ = (f_(1e-4) - f_(-1e-4)) / 2e-4
+        return abs(float(g_.reshape(-1)[idx]) - fd_) <= TOL["rel"] * max(1.0, abs(fd_)) + 40 * ktol / 1e-4
+
     if level == "pulser":
         from pulser._hamiltonian_data import HamiltonianData
 
@@ -278,6 +311,7 @@ def check_case(case) -> Result:
 
         lv = {k: v.clone().requires_grad_(True) for k, v in params.items()}
         smp = samples_of(lv)
+        smp_values = smp.detach().clone()
         for name in params:
             jac = torch.zeros(smp.numel(), dtype=torch.float64)
             if smp.requires_grad:
@@ -289,6 +323,7 @@ def check_case(case) -> Result:
             pm_[name] = pm_[name] - 1e-5
             with torch.no_grad():
                 fdj = (samples_of(pp) - samples_of(pm_)) / 2e-5
+            jacs[name] = jac
             if float((jac - fdj).abs().max()) > 1e-6:
                 # pulser's own differentiable sampling is inconsistent for this parameter (e.g. the last sample of a
                 # RampWaveform carries no gradient w.r.t. its end value): not something the emulators can be held to
@@ -345,6 +380,10 @@ def check_case(case) -> Result:
             if energy_obs:
                 # the Energy observable is evaluated with a Hamiltonian object built outside the autograd graph
                 kind = "energy_observable_not_differentiable:explicit_dependence_dropped"
+            elif level == "pulser" and at_flat_samples(name) and agrees_off_the_tie(name, idx):
+                # PCHIP's slope rule is piecewise (harmonic mean / zero); exactly on a tie (equal neighbouring samples)
+                # autograd differentiates the "zero" branch although the interpolant is smooth along the parameter
+                kind = f"pchip_gradient_on_exactly_flat_samples:{name}"
             r.fail(kind,
                    f"{where}: autograd {gv:.8e} vs finite differences {fd2:.8e} (h={h}, h/2 estimate {fd1:.8e}), dense-model finite differences {fd_ref:.8e}; "
                    f"n={n}, steps={case['steps']}, loss={case['loss']}")
